@@ -58,21 +58,13 @@ func replaceMatchers(selectors matcherHeap, expr *parser.Expr) {
 				continue
 			}
 
-			// Make a copy of the original selectors to avoid modifying them while
-			// trimming filters.
-			filters := make([]*labels.Matcher, len(e.LabelMatchers))
-			copy(filters, e.LabelMatchers)
-
-			// All replacements are done on metrics name only,
-			// so we can drop the explicit metric name selector.
-			filters = dropMatcher(labels.MetricName, filters)
-
-			// Drop filters which are already present as matchers in the replacement selector.
-			for _, s := range replacement {
-				for _, f := range filters {
-					if s.Name == f.Name && s.Value == f.Value && s.Type == f.Type {
-						filters = dropMatcher(f.Name, filters)
-					}
+			// The filters are the original matchers which the replacement does not
+			// contain. Matchers are compared as a whole: a selector may have several
+			// matchers for the same label name.
+			filters := make([]*labels.Matcher, 0, len(e.LabelMatchers))
+			for _, f := range e.LabelMatchers {
+				if !containsMatcher(replacement, f) {
+					filters = append(filters, f)
 				}
 			}
 			e.LabelMatchers = replacement
@@ -83,27 +75,6 @@ func replaceMatchers(selectors matcherHeap, expr *parser.Expr) {
 			return
 		}
 	})
-}
-
-func dropMatcher(matcherName string, originalMatchers []*labels.Matcher) []*labels.Matcher {
-	i := 0
-	for i < len(originalMatchers) {
-		l := originalMatchers[i]
-		if l.Name == matcherName {
-			originalMatchers = append(originalMatchers[:i], originalMatchers[i+1:]...)
-		} else {
-			i++
-		}
-	}
-	return originalMatchers
-}
-
-func matcherToMap(matchers []*labels.Matcher) map[string]*labels.Matcher {
-	r := make(map[string]*labels.Matcher, len(matchers))
-	for i := 0; i < len(matchers); i++ {
-		r[matchers[i].Name] = matchers[i]
-	}
-	return r
 }
 
 // matcherHeap is a set of the most selective label matchers
@@ -133,24 +104,34 @@ func (m matcherHeap) findReplacement(metricName string, matcher []*labels.Matche
 		return nil, false
 	}
 
-	matcherSet := matcherToMap(matcher)
-	topSet := matcherToMap(top)
-	for k, v := range topSet {
-		m, ok := matcherSet[k]
-		if !ok {
-			return nil, false
-		}
-
-		equals := v.Name == m.Name && v.Type == m.Type && v.Value == m.Value
-		if !equals {
+	// Every matcher of the replacement has to be a matcher of the selector,
+	// otherwise the replacement would not select a superset of its series.
+	for _, t := range top {
+		if !containsMatcher(matcher, t) {
 			return nil, false
 		}
 	}
 
 	// The top matcher and input matcher are equal. No replacement needed.
-	if len(topSet) == len(matcherSet) {
+	equal := true
+	for _, m := range matcher {
+		if !containsMatcher(top, m) {
+			equal = false
+			break
+		}
+	}
+	if equal {
 		return nil, false
 	}
 
 	return top, true
+}
+
+func containsMatcher(matchers []*labels.Matcher, m *labels.Matcher) bool {
+	for _, o := range matchers {
+		if o.Name == m.Name && o.Type == m.Type && o.Value == m.Value {
+			return true
+		}
+	}
+	return false
 }
